@@ -106,16 +106,31 @@ func c09Oracle(ctx *genCtx, dir string, files map[string]string, args []string, 
 func c09Case(ctx *genCtx, ts *tape.Set, dir string) *genResult {
 	mt := ts.Fork("mode")
 	prof := drawProfile(ts.Fork("profile"), ctx.tier)
-	negative := mt.Intn(3) > 0
+	enumerating := ts.Index >= 0 && ts.Index < len(world.NegSnippets)
+	var negative bool
+	if enumerating {
+		negative = mt.Force(3, 1) > 0
+	} else {
+		negative = mt.Intn(3) > 0
+	}
 	if negative {
 		// small surrounding world: the splice is what is being looked at
 		prof.MaxCalls = 1 + mt.Intn(3)
-		prof.Q = false
+		if mt.Intn(3) == 0 {
+			// several packages in one invocation: the error of one must not be lost behind the others
+			prof.Q, prof.Force = true, true
+		} else {
+			prof.Q = false
+		}
 	}
 	w := world.Generate(ts.Fork("world"), prof)
 	var s world.NegSnippet
 	if negative {
-		s = world.SpliceNegative(w, ts.Fork("splice"))
+		idx := -1
+		if enumerating {
+			idx = ts.Index
+		}
+		s = world.SpliceNegative(w, ts.Fork("splice"), idx)
 	}
 	files := w.Render()
 	res := &genResult{Sample: map[string]any{"files": userSources(files), "negative": negative, "snippet_kind": s.Kind, "snippet_call": s.Call}}
